@@ -75,7 +75,9 @@ fn c01_one(st: &mut Stats, s: &str, src: Src) {
         st.maxf("errors_per_byte", r.errors as f64 / d);
     }
     st.maxf("peak_heap_bytes_per_byte", peak as f64 / d);
-    let peak_budget = 96 * len + 64 * 1024;
+    // tokens are <= ~2 per byte (virtual tokens at end of input), 40 bytes each, and a growing
+    // vector briefly holds old and new storage: 512 bytes per source byte is a generous linear bound
+    let peak_budget = 512 * len + 64 * 1024;
     if peak > peak_budget && !matches!(ex.outcome, Outcome::Panic(_)) {
         st.violation(
             &Finding::new("C01.heap", "peak", format!("peak heap {peak} bytes for a {len}-byte source exceeds {peak_budget}")),
@@ -141,10 +143,16 @@ pub fn c01(ctx: &Ctx, st: &mut Stats) {
     // nesting / speculation / datalines families
     let n = ctx.draws(60_000, 1_000_000);
     for _ in 0..n {
-        let s = match r.below(4) {
+        let s = match r.below(7) {
             0 => tg::nesting_case(&mut r),
             1 => tg::speculation_case(&mut r),
             2 => tg::datalines_case(&mut r),
+            3 => tg::deep_call_case(&mut r),
+            4 => {
+                let k = r.below(1 << 20);
+                let b = crate::diffprops::diff_input("C18", r.next_u64(), k, ctx.tier, ctx.corpus);
+                if r.chance(1, 2) { tg::lf_variant(&b, &mut r) } else { b }
+            }
             _ => tg::error_case(&mut r, ctx.corpus),
         };
         c01_one(st, &s, Src::Targeted);
@@ -497,6 +505,15 @@ pub fn structural(ctx: &Ctx, st: &mut Stats) {
             for s in outs {
                 structural_one(prop, st, &s, Src::GrammarMut);
             }
+        }
+    }
+    // very many diagnostics in one source (C09)
+    if prop == "C09" {
+        for k in (ctx.shard..if ctx.tier == Tier::Quick { 8 } else { 48 }).step_by(ctx.nshards) {
+            let mut rr = Rng::derive(ctx.seed, k as u64, 909, 1);
+            let s = tg::many_errors_case(&mut rr);
+            structural_one(prop, st, &s, Src::Family);
+            st.count("many_error_inputs", 1);
         }
     }
     // long literals: beyond any 16-bit / 32 Ki threshold (C07)
